@@ -209,6 +209,15 @@ def run_case(case):
         # in Python but one on the wire)
         tb["alts"] = [round_floats(auxgen.as_tree(t["t"]), a) for a in t.get("alts", []) if _valid(auxgen.as_tree(t["t"]), a)]
         tables.append(tb)
+    if tables and case.get("twin"):
+        # the same (type, bytes) planted a second time in the other holder: the
+        # two tables are independent values (no sharing through any decode memo)
+        tw = dict(tables[0])
+        tw["holder"] = 1 - tables[0]["holder"]
+        tw["key"] = "twin"
+        tw["alts"] = list(tables[0]["alts"])
+        tables = (tables + [tw])[:5] if len(tables) < 4 else tables[:3] + [tw]
+        res.tag("table:twin")
     if not tables:
         return res
     base = IR_pb2.IR()
@@ -488,7 +497,8 @@ def strategy():
     return st.fixed_dictionaries(
         {
             "tables": st.lists(table(), min_size=1, max_size=4),
-            "gens": st.lists(st.lists(action, min_size=4, max_size=4), min_size=1, max_size=3),
+            "gens": st.lists(st.lists(action, min_size=5, max_size=5), min_size=1, max_size=3),
+            "twin": st.sampled_from([False, False, True]),
         }
     )
 
